@@ -513,7 +513,7 @@ func (h *hist) exec(o opSpec) {
 	atomicKind := true
 	tax := big.NewInt(0)
 	amt := new(big.Int)
-	if o.Amt != "" {
+	if o.Amt != "" && o.Kind != "settax" {
 		amt.SetString(o.Amt, 10)
 	}
 	switch o.Kind {
@@ -560,6 +560,21 @@ func (h *hist) exec(o opSpec) {
 			return nil
 		})
 		term = fmt.Sprintf("OEndBlock %d %d %s", o.H, now.Unix(), coqFault(o.Fault))
+	case "settax":
+		// governance changes the denom's bridge tax (rate and exemption list) while transfers are pending
+		var ex []string
+		for u := 0; u < nUsers; u++ {
+			if o.U&(1<<u) != 0 {
+				ex = append(ex, e.users[u].String())
+			}
+		}
+		err, pan = deliver(e.root, true, func(ctx sdk.Context) error {
+			return e.gov(ctx, &types.SetBridgeTaxProposal{Title: "t", Description: "d", Rate: o.Amt, Token: denoms[o.D], ExemptAddresses: ex})
+		})
+		if err != nil || pan {
+			panic(fmt.Sprintf("SetBridgeTaxProposal(%q) failed: %v", o.Amt, err))
+		}
+		term = "OGov"
 	case "cancelbatch":
 		err, pan = deliver(e.root, false, func(ctx sdk.Context) error {
 			return e.k.CancelOutgoingTXBatch(ctx, contractAddr(o.K), o.Nonce)
@@ -699,6 +714,15 @@ func (h *hist) oracle(o opSpec, ok, atomicKind bool, before, after snap) {
 			if n != 1 {
 				h.violate("C01:send-accepted-not-pooled", fmt.Sprintf("successful SendToRemote added %d transfers to the pool", n))
 			}
+			for _, t := range after.pool {
+				if !seen[t.id] {
+					i := t.sender*len(denoms) + o.D
+					locked := new(big.Int).Sub(before.bals[i], after.bals[i])
+					if want := new(big.Int).Add(t.amount, t.tax); locked.Cmp(want) != 0 {
+						h.violate("C01:lock-ne-amount-plus-stored-tax", fmt.Sprintf("send of transfer %d locked %s, the pooled record says amount+tax=%s", t.id, locked, want))
+					}
+				}
+			}
 		case "cancel":
 			h.refund[o.ID] = true
 			if t, f := h.acc[o.ID]; f {
@@ -724,6 +748,9 @@ func (h *hist) oracle(o opSpec, ok, atomicKind bool, before, after snap) {
 				h.dep[d].Add(h.dep[d], amt)
 			}
 		}
+	}
+	if o.Kind == "settax" && !before.equal(after) {
+		h.violate("C01:governance-moved-bridge-funds", "SetBridgeTaxProposal changed pool / batches / balances")
 	}
 	// (4) a bridge operation that reports failure leaves pool, batches and balances as they were
 	if !ok && atomicKind && !before.equal(after) {
@@ -836,6 +863,22 @@ func (h *hist) genOp(r *rand.Rand, ck *clock, search bool) opSpec {
 	}
 	hostile := r.Intn(100) < 15
 	pickEntry := func() entry { return e.table[r.Intn(len(e.table))] }
+	if r.Intn(100) < 9 {
+		// governance: new tax rate and exemption list for a denom, preferably one with pending transfers
+		o.Kind, o.Fault = "settax", -1
+		o.D = r.Intn(len(denoms))
+		if len(s.pool) > 0 && r.Intn(4) != 0 {
+			t := s.pool[r.Intn(len(s.pool))]
+			if d := e.denomOf(t.chain, t.contract); d >= 0 {
+				o.D = d
+			}
+		}
+		o.Amt = []string{"0", "1/5", "1/3", "7/1000", "0.02", "1/2", "3/2"}[r.Intn(7)]
+		if r.Intn(3) == 0 {
+			o.U = r.Intn(1 << nUsers)
+		}
+		return o
+	}
 	w := r.Intn(100)
 	if len(s.batches) == 0 && w >= 76 && r.Intn(4) != 0 {
 		w = r.Intn(76) // little to execute / estimate / cancel without batches
@@ -1014,7 +1057,7 @@ type corpusFile struct {
 
 func TestCorr(t *testing.T) {
 	run := emit.Start("C01", 300)
-	run.Rule("one case = one history (4-28 ops) on a fresh 5-validator skyway environment with two EVM chains, a random denom<->(chain,contract) table (incl. one contract address registered on both chains), random tax rates and balances; ops: send / cancel (messages, tx-wrapped), BuildOutgoingTXBatch, createBatch, cleanupTimedOutBatches, EndBlocker, UpdateBatchGasEstimate, executed-batch and deposit attestations; 35% of ops carry a fault at the k-th collaborator call (bank / EVM keeper proxies), 15% are hostile (unmapped, zero, over balance, wrong sender, unknown id, wrong chain, timed out, blocked / invalid receiver, max=0); non-trivial = at least one successful and one failed operation")
+	run.Rule("one case = one history (4-28 ops) on a fresh 5-validator skyway environment with two EVM chains, a random denom<->(chain,contract) table (incl. one contract address registered on both chains), random tax rates and balances; ops: send / cancel (messages, tx-wrapped), governance SetBridgeTax (new rate / exemption list while transfers are pending), BuildOutgoingTXBatch, createBatch, cleanupTimedOutBatches, EndBlocker, UpdateBatchGasEstimate, executed-batch and deposit attestations; 35% of ops carry a fault at the k-th collaborator call (bank / EVM keeper proxies), 15% are hostile (unmapped, zero, over balance, wrong sender, unknown id, wrong chain, timed out, blocked / invalid receiver, max=0); non-trivial = at least one successful and one failed operation")
 	search := os.Getenv("VERIF_SEARCH") == "1"
 	// corpus first
 	files, _ := filepath.Glob("../corpus/C01/*.json")
